@@ -545,6 +545,22 @@ def _or(a, b):
     return z3.Or(a, b)
 
 
+_INT_BITS = {"int16": 16, "int32": 32}
+# smallest magnitudes that round to infinity in the narrow float types
+_FLOAT_OVERFLOW = {"float16": 65520.0, "float32": 3.4028235677973366e38}
+
+
+def _wrap_int(v, cls):
+    """Two's-complement wrap-around of an integer value stored into a narrower integer type (int64 is treated as unbounded)."""
+    bits = _INT_BITS.get(cls._name)
+    if bits is None:
+        return v
+    half = 2 ** (bits - 1)
+    if isinstance(v, int):
+        return (v + half) % (2 * half) - half
+    return z3.simplify((v + half) % (2 * half) - half)
+
+
 def cast_scalar(x, cls):
     """Convert x (python number, scalar, 0-d/size-1 array, str) to scalar class cls."""
     if not isinstance(x, generic):
@@ -576,29 +592,40 @@ def cast_scalar(x, cls):
             if x.sym:
                 return _mk(cls, z3.If(x.v, z3.RealVal(1), z3.RealVal(0)))
             return _mk(cls, float(x.v))
+        lim = _FLOAT_OVERFLOW.get(cls._name)
         if x.sym:
             v = x.v if x.v.sort() == z3.RealSort() else z3.ToReal(x.v)
+            if lim is not None and type(x)._name != cls._name and core.active():
+                # narrowing to float16 / float32: magnitudes beyond the type's range become +-inf (rounding inside the range is not modelled)
+                ex = core.cur()
+                if ex.branch(v >= lim):
+                    return _mk(cls, INF)
+                if ex.branch(v <= -lim):
+                    return _mk(cls, -INF)
             return _mk(cls, v, x.nan)
-        return _mk(cls, float(x.v))
+        f = float(x.v)
+        if lim is not None and math.isfinite(f) and abs(f) >= lim:
+            f = INF if f > 0 else -INF
+        return _mk(cls, f)
     if k == "i":
         if x._kind == "b":
             if x.sym:
                 return _mk(cls, z3.If(x.v, z3.IntVal(1), z3.IntVal(0)))
             return _mk(cls, int(x.v))
         if x._kind == "i":
-            return _mk(cls, x.v)
+            return _mk(cls, _wrap_int(x.v, cls))
         # float -> int: truncation toward zero, NaN refuses
         if x.nan is not None:
             if core.cur().branch(x.nan):
                 raise ValueError("cannot convert float NaN to integer")
         if x.sym:
-            return _mk(cls, z3.If(x.v >= 0, z3.ToInt(x.v), -z3.ToInt(-x.v)))
+            return _mk(cls, _wrap_int(z3.If(x.v >= 0, z3.ToInt(x.v), -z3.ToInt(-x.v)), cls))
         sp = _conc_special(x)
         if sp == "nan":
             raise ValueError("cannot convert float NaN to integer")
         if sp:
             raise OverflowError("cannot convert float infinity to integer")
-        return _mk(cls, int(x.v))
+        return _mk(cls, _wrap_int(int(x.v), cls))
     if k == "b":
         r = x != 0
         if isinstance(r, bool):
